@@ -422,17 +422,31 @@ class Fn:
                 return self.fields(e, t, list(reversed(attrs)))
             return r
         if isinstance(node, ast.BoolOp):
-            if isinstance(node.op, ast.Or) and len(node.values) == 2 and self.t.get("value_or"):
-                # `a or b` used for its value (an optional byte string): a if it is truthy, else b
+            vo_ = None
+            if isinstance(node.op, ast.Or) and len(node.values) == 2:
+                # `a or b` of two optional values of one type: its VALUE is a if a is truthy, else b (its truthiness is then
+                # truthy(a) or truthy(b), so the reading is right in a condition as well)
+                marks_ = (len(self.unchecked_divs), len(self.pending_checks), len(self.div_sites), len(self.pending))
                 self.no_raise += 1
                 try:
-                    (a_, ta_), (b_, tb_) = self.expr(node.values[0], env), self.expr(node.values[1], env)
+                    try:
+                        vo_ = (self.expr(node.values[0], env), self.expr(node.values[1], env))
+                    except NotTranslatable:
+                        vo_ = None
                 finally:
                     self.no_raise -= 1
-                if ta_ == tb_ and ta_ in ("Opt:Bytes", "Opt:Str"):
+                if vo_ is not None and not (vo_[0][1] == vo_[1][1] and vo_[0][1].startswith("Opt:") and not vo_[0][1].endswith(":_")):
+                    vo_ = None
+                if vo_ is None:
+                    # only a probe: what it recorded is recorded again by the ordinary reading below
+                    del self.unchecked_divs[marks_[0]:], self.pending_checks[marks_[1]:], self.div_sites[marks_[2]:], self.pending[marks_[3]:]
+            if vo_ is not None:
+                (a_, ta_), (b_, tb_) = vo_
+                if True:
                     ind_ = lambda x: "   " + x.replace("\n", "\n    ")      # noqa: E731  (continuation lines right of the first `let`)
+                    if "\n" not in a_ and "\n" not in b_:
+                        return (f"((fun a => if {self.truthy('a', ta_)} then a else {b_}) {a_})", ta_)
                     return (f"((fun a => if {self.truthy('a', ta_)} then a else\n{ind_(b_)})\n{ind_(a_)})", ta_)
-                raise NotTranslatable("value `or` on these operands")
             op = " && " if isinstance(node.op, ast.And) else " || "
             parts = [self.cond(node.values[0], env)]
             for v in node.values[1:]:
@@ -2028,7 +2042,8 @@ class Fn:
         tup = "(" + ", ".join(names) + ")" if names else "()"
         exits = self.has_exit([s])
         if not exits and self.t.get("mode_safe") and any(
-                (isinstance(n, ast.BinOp) and isinstance(n.op, (ast.Div, ast.FloorDiv, ast.Mod))) or isinstance(n, ast.Call) for n in ast.walk(s)):
+                (isinstance(n, (ast.BinOp, ast.AugAssign)) and isinstance(n.op, (ast.Div, ast.FloorDiv, ast.Mod))) or isinstance(n, (ast.Call, ast.Subscript))
+                for n in ast.walk(s)):
             exits = True        # division-safety mode: a zero divisor inside leaves with `false`
         if not exits and self.t.get("raises") and any(isinstance(n, ast.Call) or (isinstance(n, ast.Subscript) and "IndexError" in self.t["raises"])
                                                       for n in ast.walk(s)):
